@@ -285,6 +285,7 @@ class Interp:
         self.zero_atoms = set()      # atoms assumed to vanish (specialised interpretation)
         self.branch_atoms = set()    # atoms met in value-dependent branches
         self.rel_stack = [rel]       # module of the function being interpreted
+        self.yield_stack = []        # values produced by the generator functions being run
         self._modcache = {}
 
     # -- configuration ---------------------------------------------------------------------
@@ -322,9 +323,12 @@ class Interp:
                 if di < 0:
                     raise Unsupported(f"missing argument {p} of {qual}")
                 env[p] = self.ev(defaults[di], {})
+        gen = not isinstance(fn, ast.Lambda) and _is_generator(fn)
         self.depth += 1
         self.fn_stack.append(qual)
         self.rel_stack.append(rel or self.rel_stack[-1])
+        if gen:
+            self.yield_stack.append([])
         try:
             if isinstance(fn, ast.Lambda):
                 return self.ev(fn.body, env)
@@ -333,6 +337,10 @@ class Interp:
             self.depth -= 1
             self.fn_stack.pop()
             self.rel_stack.pop()
+            if gen:
+                produced = self.yield_stack.pop()
+        if gen:
+            return produced
         if isinstance(r, _Return):
             return r.value
         return None
@@ -413,6 +421,17 @@ class Interp:
     def exec_stmt(self, st, env):
         if isinstance(st, ast.Expr):
             if isinstance(st.value, ast.Constant):
+                return None
+            if isinstance(st.value, (ast.Yield, ast.YieldFrom)):
+                if not self.yield_stack:
+                    raise Unsupported("yield outside a generator call")
+                v = self.ev(st.value.value, env) if st.value.value is not None else None
+                if isinstance(st.value, ast.YieldFrom):
+                    if not isinstance(v, (list, tuple, range)):
+                        raise Unsupported("yield from " + type(v).__name__)
+                    self.yield_stack[-1].extend(v)
+                else:
+                    self.yield_stack[-1].append(v)
                 return None
             if isinstance(st.value, ast.Call) and unparse(st.value.func) in (
                     "self.myprint", "print", "warnings.warn"):
@@ -1143,6 +1162,9 @@ class Interp:
                 if not isinstance(extra, dict):
                     raise Unsupported("** of a non-dictionary")
                 kwargs.update(extra)
+        return self.dispatch_call(node, fsrc, args, kwargs, env)
+
+    def dispatch_call(self, node, fsrc, args, kwargs, env):
         if fsrc.startswith("self.fd."):
             return self.fd_call(fsrc[8:], args, node)
         if fsrc.startswith("self."):
@@ -1313,7 +1335,18 @@ class Interp:
             return out
         if name == "bool":
             return self.truth(args[0], node)
+        if name == "getattr" and len(args) >= 2 and isinstance(args[1], str):
+            return self.get_attribute(args[0], args[1], args[2:], node)
         raise Unsupported("builtin " + name)
+
+    def get_attribute(self, obj, name, default, node):
+        if isinstance(obj, _Module):
+            return self.ev(ast.Attribute(value=ast.Name(id=obj.name, ctx=ast.Load()),
+                                         attr=name, ctx=ast.Load()), {}) \
+                if "." not in obj.name else _Module(obj.name + "." + name)
+        if isinstance(obj, _NT) and name in obj.cls.fields:
+            return obj.values[obj.cls.fields.index(name)]
+        raise Unsupported("getattr of " + type(obj).__name__)
 
     def apply(self, f, args, node):
         """Call a function value with already evaluated arguments."""
@@ -1806,6 +1839,18 @@ class _Builtin:
 class _BoundMethod:
     def __init__(self, obj, attr):
         self.obj, self.attr = obj, attr
+
+
+def _is_generator(fn):
+    todo = list(fn.body)
+    while todo:
+        n = todo.pop()
+        if isinstance(n, (ast.Yield, ast.YieldFrom)):
+            return True
+        if isinstance(n, (ast.FunctionDef, ast.Lambda, ast.ClassDef)):
+            continue
+        todo.extend(ast.iter_child_nodes(n))
+    return False
 
 
 def _load(target):
